@@ -17,10 +17,11 @@ import vlib
 
 PROOF_MODULES = []
 OBLIGATIONS = [
-    "C44/P_mathml_wellformed.v",
+    "C44/P_mathml_wellformed.v", "C44/P_mathml_total.v",
     "C44/P_latex_balanced_guarded.v", "C44/P_latex_balanced_refuted.v", "C44/P_latex_checker.v",
     "C44/P_stringbox_rect.v", "C44/P_stringbox_ops_rect.v",
     "C44/P_unicode_rect_guarded.v", "C44/P_unicode_rect_refuted.v", "C44/P_add_power_order_refuted.v",
+    "C44/P_printers_total.v", "C44/P_unicode_total.v",
     "C44/P_coverage.v", "C44/P_throws_by_design.v",
     "C44/P_nonvacuous.v",
 ]
@@ -29,7 +30,7 @@ OBLIGATIONS = [
 OWN_FILES = ["C44/PrintBase.v", "C44/Names.v", "C44/NestSpec.v", "C44/MathMLModel.v", "C44/StrModel.v",
              "C44/BoxModel.v", "C44/Sbml.v", "C44/Coverage.v", "C44/C44Spec.v", "C44/NestProofs.v",
              "C44/TextProofs.v", "C44/MathMLProofs.v", "C44/LatexProofs.v", "C44/BoxProofs.v",
-             "C44/UnicodeProofs.v", "C44/TotalProofs.v"]
+             "C44/UnicodeProofs.v", "C44/TotalProofs.v", "C44/TotalFuel.v", "C44/TotalStr.v", "C44/TotalBox.v"]
 SHARED_DEPS = ["Base/Prelude.vo", "Base/Word64.vo", "Num/NumDefs.vo", "Gen/TypeCodes.vo", "Expr/ExprDefs.vo",
                "Expr/Hash.vo", "Expr/Cmp.vo", "Expr/Guards.vo", "Expr/Wf.vo", "Expr/IO.vo", "C39/QueryModel.vo"]
 
